@@ -72,7 +72,11 @@ func runFam(c *vf.Check, f famSpec) {
 	if len(cases) > 1 {
 		bindingSelfTest(c, f.id, cases[len(cases)-1].Ideal, srcKeys)
 	}
-	srcCoverage(c, res, cases, run, st, consts, f.rule)
+	rule := f.rule
+	if rule == "" {
+		rule, _ = c.Cov["rule"].(string)
+	}
+	srcCoverage(c, res, cases, run, st, consts, rule)
 	c.Cov["exhaustive"] = true
 	c.Assumptions = append(c.Assumptions, "oracle = CoSource.tla, validated on every case of this run against native Go (iter.Pull rendering of the same AST)")
 	c.Assumptions = append(c.Assumptions, f.assume...)
